@@ -467,6 +467,7 @@ def extract_casts(incdir):
     casts to void are not conversions"""
     objs, err = clang_ast("sigc", incdir)
     rows = set()
+    aliases = {}
     for o in objs:
         ft = FileTracker()
 
@@ -480,8 +481,17 @@ def extract_casts(incdir):
             k = n.get("kind")
             if k in FUNC_KINDS:
                 fn = n.get("name")
+                # aliases declared inside the function are names for the types they stand for
+                aliases.clear()
+                for a in find_all(n, lambda x: x.get("kind") in ("TypeAliasDecl", "TypedefDecl")):
+                    if a.get("name"):
+                        aliases[a["name"]] = a.get("type", {}).get("qualType", "")
             if k in CAST_KINDS:
-                tgt = norm_type(n.get("type", {}).get("qualType"))
+                tgt = n.get("type", {}).get("qualType") or "?"
+                for _ in range(3):
+                    for an, at in aliases.items():
+                        tgt = re.sub(r"\b%s\b" % re.escape(an), at, tgt)
+                tgt = norm_type(tgt)
                 file = os.path.basename(ft.cur or "?")
                 nargs = len(n.get("inner") or [])
                 keep = tgt != "void" and file not in CAST_FILES_SKIP and (ft.cur or "").find("sigc++") >= 0
